@@ -70,6 +70,9 @@ def parse(out):
     return rows
 
 
+BOUNDARY_PROBED = ("string_repeat", "string_repeat_mb", "pad_left", "pad_right", "array_int", "array_bool", "array_obj", "manual_alloc", "fs_read_bytes")
+
+
 def size_class(r):
     if r["size"] < 0:
         return "negative"
@@ -485,6 +488,37 @@ def run(ctx):
                 const[key] = min(vals)
                 ctx.violation(f"failed-op-changed-accounting:{FAMILY.get(key[0], key[0])}",
                               f"{key[0]} at -O{key[1]}: refused operations leave different accounting deltas {sorted(vals)}", {"op": key[0], "opt": key[1], "deltas": sorted(vals)})
+        # exact boundary probe: for every single-request operation, optimisation level and limit, the sizes around the LARGEST
+        # request that still fits (computed from the calibrated constant and the bytes in use of this very configuration):
+        # one element / byte below, exactly at, and 1 .. 25 bytes above it.  A limit check that asks for a few bytes less (or
+        # more) than is charged - an object header left out of an estimate - only shows inside that window
+        if not ctx.replay_file:
+            probes, seenp = [], set()
+            for r in rows:
+                key = (r["op"], r["opt"], r["limit"])
+                c0 = const.get((r["op"], r["opt"]))
+                if key in seenp or c0 is None or r["op"] not in BOUNDARY_PROBED or r["limit"] > (4 << 20):
+                    continue
+                seenp.add(key)
+                used0 = r["a0"] + c0
+                lo, hi = 2, r["limit"]
+                while lo < hi:                       # largest n whose request fits
+                    mid = (lo + hi + 1) // 2
+                    q = request_bytes({"op": r["op"], "size": mid})
+                    if q is not None and used0 + q <= r["limit"]:
+                        lo = mid
+                    else:
+                        hi = mid - 1
+                unit = max(1, (request_bytes({"op": r["op"], "size": lo + 1}) or 0) - (request_bytes({"op": r["op"], "size": lo}) or 0))
+                for dn in sorted({-1, 0, 1, 2, 3, 4, 8 // unit, 16 // unit, 23 // unit, 24 // unit, 25 // unit, 32 // unit}):
+                    if lo + dn > 1:
+                        probes.append(f"{r['op']}:{lo + dn}:{r['limit']}:{r['opt']}")
+            if probes:
+                rc2, out2 = vlib.sh([paths["hx_heaplimit"], "--cases", ",".join(sorted(set(probes))), "--jobs", "8"], timeout=900)
+                prow = parse(out2)
+                ctx.cov.setdefault("boundary_probe", {})[prof] = {"cases": len(prow), "configurations": len(seenp)}
+                rows += prow
+                total += len(prow)
         for r in rows:
             audit[f"{r['op']}:{KIND.get(r['kind'], r['kind'])}"] = audit.get(f"{r['op']}:{KIND.get(r['kind'], r['kind'])}", 0) + 1
             by_class[size_class(r)] = by_class.get(size_class(r), 0) + 1
